@@ -51,6 +51,19 @@ CONSTRUCTS = {
     "noncmp-untyped-after-compare": ('Signal z0 = 4;\nSignal zc = (z0 >= 3) : 2;\nSignal z1 = z0 : 5;', ["comparison", ":"]),
     "syntax": ('Signal z1 = 1 +;', ["parse", "syntax", "unexpected"]),
 }
+# constructs whose violation depends on WHICH symbol a name resolves to: (outer declaration of the same name with a kind for
+# which the last statement would be legal, a legal use of that outer name). Embedding "shadow/*": the body first uses the
+# outer name, then the construct legally shadows it and violates the rule on the LOCAL symbol.
+SHADOW = {
+    "assign-immutable": ('Entity z1 = place("small-lamp", 60, 60);', 'z1.enable = a > 0;'),
+    "wrong-kind-int": ('int z0 = 3;', 'Signal zuse = a + z0;'),
+    "wrong-kind-signal": ('Signal zb = ("signal-C", 1);', 'Signal zuse = zb + 1;'),
+    "dup-bundle-vars": ('Signal zt = ("signal-B", 2);', 'Signal zuse = zt + 1;'),
+    "bundle-op-bundle": ('Signal zc = ("signal-C", 2);', 'Signal zuse = zc + 1;'),
+    "write-type-mismatch": ('Memory zm: "signal-B";', 'Signal zuse = zm.read() + 1;'),
+    "bare-bundle-cmp": ('Signal zb = ("signal-C", 1);', 'Signal zuse = zb > 0;'),
+    "select-absent": ('Bundle zb = {("signal-Z", 1), ("signal-A", 2)};', 'Signal zuse = zb["signal-Z"] + 0;'),
+}
 BENIGN = 'Signal zok = ("signal-Z", 1);\nSignal zok2 = zok + 1;'
 BASES = {
     "arith": ['Signal a = ("signal-A", 3);', 'Signal b = a * 2 + 1;', 'Signal c = (a > 2) : b;'],
@@ -60,7 +73,7 @@ BASES = {
 }
 
 
-def contexts(has_func):
+def contexts(has_func, cname=None):
     """(tag, builder) pairs; builder(text) -> program source."""
     out = []
     for bname, lines in BASES.items():
@@ -81,6 +94,14 @@ def contexts(has_func):
         return base + "\n".join(parts[:-1]) + "\n" + sep + parts[-1] + "\n"
     for sname, sep in SEP.items():
         out.append((f"split/{sname}", lambda t, sep=sep: split(t, sep)))
+    if cname in SHADOW:
+        outer, use = SHADOW[cname]
+
+        def ind(t, n=1):
+            return "\n".join(" " * n + ln for ln in t.splitlines())
+        out.append(("shadow/loop", lambda t: base + outer + "\nfor zj in 0..2 {\n" + ind(use) + "\n" + ind(t) + "\n}\n"))
+        out.append(("shadow/func", lambda t: base + outer + "\nfunc zwrap(Signal w) {\n" + ind(use) + "\n" + ind(t) + "\n return w + 1;\n}\nSignal used0 = zwrap(a);\n"))
+        out.append(("shadow/nested-loop", lambda t: base + outer + "\nfor zj in 0..2 {\n" + ind(use) + "\n for zk in 0..2 {\n" + ind(t, 2) + "\n }\n}\n"))
     if has_func:
         return out
 
@@ -148,7 +169,7 @@ class C14(core.Check):
     rule = ("every violating construct (31 constructs for the 17 documented rule groups, each self-contained) x every "
             "embedding (every statement position of three accepted base programs; inside a function called once / twice "
             "/ never; inside loop bodies with 1, 2 and 3 iterations and nested loops; inside a function called from a loop; "
-            "between valid uses; with the construct's own statements separated by a function containing a loop / nested loops); the compiler must raise or return success=False with a message naming the problem, and "
+            "between valid uses; after a use of an outer name that the construct then legally shadows (loop, function, nested loop; 8 symbol-dependent constructs); with the construct's own statements separated by a function containing a loop / nested loops); the compiler must raise or return success=False with a message naming the problem, and "
             "(CLI cases) exit non-zero printing nothing that decodes as a blueprint; every embedding is first shown to be "
             "accepted with a benign statement in place of the construct; non-trivial = the control program was accepted")
     assumptions = ["the benign control statement makes every embedding an accepted program",
@@ -158,7 +179,7 @@ class C14(core.Check):
         out = []
         for cname, (text, kw) in CONSTRUCTS.items():
             has_func = "func " in text
-            for tag, _ in contexts(has_func):
+            for tag, _ in contexts(has_func, cname):
                 out.append({"construct": cname, "context": tag, "via": "api"})
             out.append({"construct": cname, "context": "top/arith/3", "via": "cli-file"})
             if tier == "thorough":
@@ -171,9 +192,12 @@ class C14(core.Check):
 
     def run_case(self, case):
         text, kws = CONSTRUCTS[case["construct"]]
-        build = dict(contexts("func " in text))[case["context"]]
+        build = dict(contexts("func " in text, case["construct"]))[case["context"]]
         bad_src = build(text)
         ok_src = build(BENIGN)
+        if case["context"].startswith("shadow/"):
+            # control: the construct without its last (violating) statement, i.e. the legal shadowing alone
+            ok_src = build("\n".join(split_top_level(text)[:-1]))
         try:
             harness.compile_src(ok_src)
         except harness.Rejected as ex:
